@@ -787,5 +787,6 @@ func CoreExpr(t *rapid.T, doc *model.Value, depth int) *ref.E {
 	e := g.expr([]*model.Value{doc}, ref.Env{}, depth)
 	// half of the path-like pipes are written as postfix chains (.a[0], .a["k"], .a[], .a[1:3])
 	ref.MarkPostfix(e, func() bool { return rapid.Bool().Draw(t, "postfix") })
+	ref.MarkHex(e, func() bool { return rapid.IntRange(0, 2).Draw(t, "hex") == 0 })
 	return e
 }
